@@ -22,6 +22,8 @@ Views(e, calls) ==
                  \A j \in 1..Len(o.by_stream) : o.by_stream[j].calls = ByStream(calls, o.by_stream[j].sid))
     /\ Clause(e, "ops_has", e.ev \in {"ctxnew", "ctxadd"} \/
                  \A j \in 1..Len(o.has) : o.has[j].idx = HasIdx(calls, o.has[j].sid, o.has[j].module, o.has[j].test))
+    \* Call defines __hash__ next to __eq__: every call of a configuration can be hashed
+    /\ Clause(e, "ops_hashable", o.hashable)
     \* the same question asked with the function object instead of its dotted name
     /\ Clause(e, "ops_has_callable", e.ev \in {"ctxnew", "ctxadd"} \/
                  \A j \in 1..Len(o.has) : o.has[j].fidx = HasIdx(calls, o.has[j].sid, o.has[j].module, o.has[j].test))
